@@ -57,13 +57,13 @@ func (sc *RevScenario) buildViews(obs *RevObs, co *CallObs) []*CertView {
 		}
 		origins[sp.Hash][sp.Origin] = true
 	}
-	for k, v := range w.crlReg {
-		reg[k] = v
+	for _, v := range w.crlReg {
+		reg[v.Hash] = v
 		addOrigin(v)
 	}
 	if w.CloneOf != nil {
-		for k, v := range w.CloneOf.crlReg {
-			reg[k] = v
+		for _, v := range w.CloneOf.crlReg {
+			reg[v.Hash] = v
 			addOrigin(v)
 		}
 	}
